@@ -137,6 +137,7 @@ fn parse_uri(buf: &[u8]) -> Result<(RequestUri<'_>, &[u8]), HttpParsingError> {
             let mut j = i;
             j += match_uri_vectored(&buf[j..]);
             match buf.get(j).copied() {
+                Some(b' ') if j == 0 => return Err(MalformedStatusLine), // empty target
                 Some(b' ') => {
                     // SAFETY: ASCII subset validated byte-by-byte above
                     let uri = unsafe { core::str::from_utf8_unchecked(&buf[..j]) };
